@@ -70,7 +70,35 @@ def freeze(x):
 
 
 _FRESH = set()
-_BUILD_LOCK = __import__("threading").Lock()
+_BUILD_LOCK = __import__("threading").RLock()
+_FLOCK = {"fd": None, "depth": 0}
+
+
+class build_lock:
+    """Cross-process lock around everything that writes or reads .vo files and runner binaries
+    (make, coqc on generated cases, runner/build.sh): checks started in parallel would otherwise
+    compile the same dependency, or replace a runner another check is about to execute, at the
+    same time.  Re-entrant within the process."""
+
+    def __enter__(self):
+        import fcntl
+        _BUILD_LOCK.acquire()
+        if _FLOCK["depth"] == 0:
+            fd = os.open(os.path.join(COQ, ".build.lock"), os.O_CREAT | os.O_RDWR, 0o666)
+            fcntl.flock(fd, fcntl.LOCK_EX)
+            _FLOCK["fd"] = fd
+        _FLOCK["depth"] += 1
+        return self
+
+    def __exit__(self, *exc):
+        import fcntl
+        _FLOCK["depth"] -= 1
+        if _FLOCK["depth"] == 0:
+            fcntl.flock(_FLOCK["fd"], fcntl.LOCK_UN)
+            os.close(_FLOCK["fd"])
+            _FLOCK["fd"] = None
+        _BUILD_LOCK.release()
+        return False
 
 
 def model_entry(name):
@@ -85,7 +113,9 @@ def model_entry(name):
 def ensure_runner(name):
     """Rebuild runner/bin/<name> when any model source is newer than it."""
     exe = os.path.join(RUNNER_BIN, name)
-    with _BUILD_LOCK:
+    if name in _FRESH:
+        return exe
+    with build_lock():
         if name in _FRESH:
             return exe
         entry = model_entry(name)
@@ -251,6 +281,11 @@ def audit_sources(files=None):
 
 def coq_build(targets, jobs=8, timeout=3000):
     """Full .vo build (never -vos) of the given targets.  Returns (ok, log)."""
+    with build_lock():
+        return _coq_build(targets, jobs, timeout)
+
+
+def _coq_build(targets, jobs, timeout):
     subprocess.run([os.path.join(VERIF, "tools", "gen_coqproject.sh")], check=True)
     mk = os.path.join(COQ, "Makefile")
     if (not os.path.exists(mk)
@@ -269,12 +304,24 @@ def check_props(prop_file):
     Returns dict(ok, theorems=[(name, [axioms])], log, obligations, discharged)."""
     rel = "Props/%s.v" % prop_file
     vo = os.path.join(COQ, rel + "o")
-    for ext in ("o", "os", "ok"):
-        try:
-            os.remove(os.path.join(COQ, rel + ext))
-        except OSError:
-            pass
-    ok, log = coq_build([rel + "o"])
+    with build_lock():
+        for ext in ("o", "os", "ok"):
+            try:
+                os.remove(os.path.join(COQ, rel + ext))
+            except OSError:
+                pass
+        ok, log = coq_build([rel + "o"])
+        others = [ln for ln in log.splitlines() if ln.startswith("COQC ") and ln.split()[-1] != rel]
+        if ok and others:
+            # stale dependencies were rebuilt in the same make and some lemma files print their own
+            # `Print Assumptions`: compile the Props file once more, alone, so that the log holds
+            # exactly its output
+            for ext in ("o", "os", "ok"):
+                try:
+                    os.remove(os.path.join(COQ, rel + ext))
+                except OSError:
+                    pass
+            ok, log = coq_build([rel + "o"])
     res = {"ok": ok, "log": log, "theorems": [], "bad_axioms": [], "audit": []}
     if not ok:
         return res
@@ -509,9 +556,10 @@ def coq_eval(requires, entry, programs, tag="xcheck"):
         path = os.path.join(d, "cases.v")
         with open(path, "w") as fh:
             fh.write("\n".join(src))
-        out = subprocess.run(
-            ["/bin/sh", "-c", "ulimit -s unlimited 2>/dev/null; exec timeout 1200 coqc -Q %s DV %s" % (COQ, path)],
-            stdout=subprocess.PIPE, stderr=subprocess.PIPE, cwd=d)
+        with build_lock():      # reads .vo files another check might be rebuilding
+            out = subprocess.run(
+                ["/bin/sh", "-c", "ulimit -s unlimited 2>/dev/null; exec timeout 1200 coqc -Q %s DV %s" % (COQ, path)],
+                stdout=subprocess.PIPE, stderr=subprocess.PIPE, cwd=d)
         if out.returncode != 0:
             raise RuntimeError("coqc failed on generated cases: " + out.stderr.decode()[-600:])
         text = out.stdout.decode()
